@@ -586,8 +586,61 @@ def _strategy_transform(ctx: Ctx, name: str) -> tuple[str, ast.FunctionDef, list
     return rel, node, ks
 
 
+def _lister_forwards(ctx: Ctx, rel: str, cname: str, lst: ast.FunctionDef, depth: int = 0):
+    """A lister's own parameters (`times`, `strategy`, `early_check`, ...) are the ones that decide which candidates the
+    rewrite takes, so each of them has to reach the walk: it is read, and wherever the lister calls a function or class of
+    its module that has a parameter of the same name, that parameter receives it (not its default, not another slot)."""
+    repo = ctx.repo
+    q = f'{cname}.{lst.name}' if depth == 0 else lst.name
+    own = [p.arg for p in lst.args.args + lst.args.kwonlyargs if p.arg not in ('func', 'within', 'self', 'cls')]
+    reads = {n.id for n in ast.walk(lst) if isinstance(n, ast.Name) and isinstance(n.ctx, ast.Load)}
+    for p in own:
+        ctx.check(p in reads, rel, lst, q, f'{q}: the parameter `{p}` reaches the walk', f'`{p}` is never read: the listing is the one for the default `{p}`, '
+                  'whatever the caller passes, so it names candidates the rewrite (run with the real value) treats differently')
+    for k in calls_in(lst):
+        n = call_name(k) or ''
+        if '.' in n:
+            continue
+        callee = None
+        if repo.has_func(rel, n):
+            callee = repo.func(rel, n)
+            params = [x.arg for x in callee.args.args] + [x.arg for x in callee.args.kwonlyargs]
+            npos = len(callee.args.args)
+            if depth < 2 and set(own) & set(params):
+                _lister_forwards(ctx, rel, cname, callee, depth + 1)       # a helper that builds the walk for the lister
+        elif repo.has_cls(rel, n) and '__init__' in repo.methods(rel, n):
+            callee = repo.methods(rel, n)['__init__'][2]
+            params = [x.arg for x in callee.args.args[1:]] + [x.arg for x in callee.args.kwonlyargs]
+            npos = len(callee.args.args) - 1
+        if callee is None or any(isinstance(x, ast.Starred) for x in k.args) or any(kw.arg is None for kw in k.keywords):
+            continue
+        bound: dict[str, ast.AST] = {params[i]: x for i, x in enumerate(k.args) if i < npos}
+        bound.update({kw.arg: kw.value for kw in k.keywords if kw.arg})
+        for p in own:
+            if p not in params:
+                continue
+            got = bound.get(p)
+            # the value may be converted on the way (`factor = Integer(factor, None)`, `names = set(funcs)`): what arrives has to come from `p`
+            der = {p}
+            grew = True
+            while grew:
+                grew = False
+                for st in ast.walk(lst):
+                    if isinstance(st, ast.Assign) and any(isinstance(x, ast.Name) and x.id in der for x in ast.walk(st.value)):
+                        for t in st.targets:
+                            for x in ast.walk(t):
+                                if isinstance(x, ast.Name) and x.id not in der:
+                                    der.add(x.id)
+                                    grew = True
+            others = {o for o in own if o != p}
+            ctx.check(got is not None and any(isinstance(x, ast.Name) and x.id in der for x in ast.walk(got)) and not (isinstance(got, ast.Name) and got.id in others), rel, k, q, f'{q}: `{n}(...)` receives `{p}` as its `{p}`',
+                      f'`{n}`\'s parameter `{p}` gets {"`" + norm(got) + "`" if got is not None else "its default"}: refusals (or sites) are computed for another `{p}` than the one asked about, '
+                      'so a loop the rewrite declines is neither listed nor explained')
+
+
 def t1_wiring(ctx: Ctx):
     repo = ctx.repo
+    forwarded: set = set()
     from ..tables import module_dict
     sites = module_dict(repo, SITES, '_SITES')
     refs = module_dict(repo, SITES, '_REFUSALS')
@@ -614,6 +667,9 @@ def t1_wiring(ctx: Ctx):
                     # a listing is asked with the arguments the strategy is called with ("pass the same arguments the
                     # rewrite will get"): every parameter the two share accepts, in the lister, what the strategy accepts
                     lst = next((s for s in cd.body if isinstance(s, ast.FunctionDef) and s.name == attr), None)
+                    if lst is not None and (a[0], c, attr) not in forwarded:
+                        forwarded.add((a[0], c, attr))
+                        _lister_forwards(ctx, a[0], c, lst)
                     if lst is not None:
                         def kinds(ann) -> set[str]:
                             return {n.id for n in ast.walk(ann) if isinstance(n, ast.Name)} - {'None'} if ann is not None else set()
@@ -1510,6 +1566,11 @@ T = 'fpy2/transform/'
 FU, SL, WU, RI, FI = T + 'for_unroll.py', T + 'split_loop.py', T + 'while_unroll.py', T + 'round_insert.py', T + 'func_inline.py'
 
 MUTANTS = [
+    Mutant('refusals-for-the-default-times', FU, "        return _lister(func, times, strategy).list_refusals(within)", "        return _lister(func, 1, strategy).list_refusals(within)", 'C19.T1',
+           'seeded change C19d: with times=2 a loop of length 4 is neither a site nor a refusal'),
+    Mutant('lister-arguments-crossed', FU, "    return _ForUnroll(\n        func, None, times, strategy, ReachingDefs.analyze(func),", "    return _ForUnroll(\n        func, None, 1, strategy, ReachingDefs.analyze(func),", 'C19.T1',
+           'the helper the listers share drops the parameter'),
+    Mutant('sites-lister-positional-slip', FU, "        return _lister(func, times, strategy).list_sites(within)", "        return _lister(func, strategy, times).list_sites(within)", 'C19.T1'),
     Mutant('split-listing-takes-nodes-only', 'fpy2/transform/split_loop.py', "    if isinstance(factor, int):\n        factor = Integer(factor, None)\n    elif isinstance(factor, str):\n        factor = Var(NamedId(factor), None)\n    return _SplitLoop(", "    return _SplitLoop(", 'C19.T1',
            'finding F61 before its repair: sites(split, f, factor=3, strategy=STRICT) lists a loop the rewrite refuses'),
     Mutant('split-listing-annotation-narrowed', 'fpy2/transform/split_loop.py', "        factor: Expr | int | str | None = None,\n        strategy: SplitLoopStrategy = SplitLoopStrategy.PEEL,\n    ) -> list[Cursor]:",
